@@ -12,7 +12,8 @@ theorem emitMove_ok (p : Params) (hy : Hyp p) (e : Emit) (M : State) (hw : WF p 
           ((e'.ctx.var i).done = decide (outId = (e.ctx.var i).out.regId)) := by
   have hv := hw.var i hi
   generalize hvdef : e.ctx.var i = v at hv hnd hfree hsw
-  obtain ⟨tok, hget, htv, hform, hdn⟩ := hv.tok
+  obtain ⟨tok, hget, htv, hform', hdn, _⟩ := hv.tok
+  have hform := hform' hnd
   have hg : groupOf v.cur.regType = groupOf v.out.regType := hv.grp
   -- the selected instruction
   unfold emitMove at h
@@ -121,13 +122,16 @@ theorem emitMove_ok (p : Params) (hy : Hyp p) (e : Emit) (M : State) (hw : WF p 
           by_cases hc : v.cur.regId = outId
           · simp [hc, g]; rw [← hc]; exact hvphys
           · simp [hc, g]
-        · refine ⟨tok', ?_, ?_, Or.inr ⟨rfl, rfl, hdv⟩, ?_⟩
+        · refine ⟨tok', ?_, ?_, fun _ => Or.inr ⟨rfl, rfl, hdv⟩, ?_, ?_⟩
           · show M'.get (Loc.reg (groupOf v.out.regType) outId) = some tok'
             exact get_set_self _ _ _
           · show (moveTok p.vis tok k c w).var = j
             rw [moveTok_var]; exact htv
           · intro hd
             exact ⟨by simpa [FuncValue.reg] using hd, hdv⟩
+          · intro hd hs
+            have := hsw hs
+            simp [this] at hd
         · intro hd hs
           have := hsw hs
           simp [this] at hd
@@ -141,8 +145,8 @@ theorem emitMove_ok (p : Params) (hy : Hyp p) (e : Emit) (M : State) (hw : WF p 
             rw [hgj] at this ⊢
             simp [h1, h2, this]
           · simp [hgj]; exact hvj.phys
-        · obtain ⟨tj, hgetj, r1, r2, r3⟩ := hvj.tok
-          refine ⟨tj, ?_, r1, r2, r3⟩
+        · obtain ⟨tj, hgetj, r1, r2, r3, r4⟩ := hvj.tok
+          refine ⟨tj, ?_, r1, r2, r3, r4⟩
           rw [← hgetj]
           apply get_set_ne
           intro heq
